@@ -14,6 +14,7 @@ MODULES = {
     "c11": "c11",
     "ctor": "ctor",
     "c13": "c13",
+    "part": "partition",
     "c03": "c03",
     "native": "nativeob",
     "lean": "leanob",
